@@ -102,7 +102,7 @@ def dl_propagate_jobs(out, tier, N, d, CAPS):
                 'spa_range(self->_dists)', '*from < XT_N && *to < XT_N && *from != *to && *dist >= -XT_R && *dist <= XT_R', 'self->_dists.e[*from].e[*to] > *dist']
     HARN = ('void xt_harness(void)\n{\n  xt_init_globals();\n' + HPRE + '\n  struct smt_idl_theory th; th.dist_constrs.n = 0; th.base_theory.cnfl.n = 0; th.listening.n = 0;\n'
             '  U_t *from; U_t *to; I_t *dist;\n  %s(&th, from, to, dist);\n}\n' % PROPE)
-    out.append(Job('idl.propagate_edge_keeps_undo_log', PROPE, tus=TUS + ['smt/theory.cpp'],
+    edge_job = (Job('idl.propagate_edge_keeps_undo_log', PROPE, tus=TUS + ['smt/theory.cpp'],
                    contract=Contract(requires=['__CPROVER_is_fresh(from, sizeof(*from)) && __CPROVER_is_fresh(to, sizeof(*to)) && __CPROVER_is_fresh(dist, sizeof(*dist))'] + EDGE_REQ,
                                      ensures=[('noexcept', '__exc == 0')] + KEEP + [('enforced_constraints_untouched', 'spu_mC_eq(self->dist_constr, %s)' % OLD('self->dist_constr'))],
                                      assigns='__exc, self->_dists, self->_preds, self->layers, self->base_theory.cnfl'),
@@ -110,6 +110,8 @@ def dl_propagate_jobs(out, tier, N, d, CAPS):
                    loop_unwind={6: 2 + 4 * N + 2 * N * N + 2}, spec_headers=SPEC + ['dl_apsp_spec.h'], exceptions=True, caps=caps2, abstract_fields=ABS2, harness=HARN, force_types=FORCE,
                    timeout=2400, mem_gb=24, mem_est=6, solver='cadical',
                    bounded='%d time points, weights in [-3, 3], one symbolic open level; no registered undecided constraints (the re-propagation loop is empty)' % N))
+    if tier == 'thorough':   # 13 minutes on its own: too long for the check meant to run on every change
+        out.append(edge_job)
     DD, SATP = 'self->var_dists.e[0].second', 'self->base_theory.sat'
     F, T, K = '%s->from' % DD, '%s->to' % DD, '%s->dist' % DD
     import os
